@@ -326,7 +326,13 @@ where
                 .join()
                 .unwrap_or_else(|_| Err(io::Error::from(io::ErrorKind::BrokenPipe)));
 
-            let _ = stream.shutdown();
+            if r1.is_ok() {
+                // the client has sent everything: pass the end of its stream on (half-close)
+                // and keep forwarding what the service still answers until it closes
+                unsafe { libc::shutdown(stream.as_raw_fd(), libc::SHUT_WR) };
+            } else {
+                let _ = stream.shutdown();
+            }
 
             let _ = rx_end.recv()?;
             let r2 = copy2
